@@ -152,7 +152,7 @@ theorem boks_andRun (a : Mach) (fuel : Nat) (r : SRes) (h : BOKS a r) : BOKS a (
 
 /-- writing a compile result back: the heap grows to the compiler's count, which respects the limit -/
 theorem sb_fromC (s : Sess) (c : CState) (h : HL s.toC c) : SB s.m (s.fromC c).m := by
-  obtain ⟨h1, h2, h3⟩ := h
+  obtain ⟨h1, h2, h3, _, _⟩ := h
   refine ⟨rfl, rfl, fun S _ => by show s.m.ds.length ≤ _; omega, fun H hH => ?_⟩
   have := h3 H hH
   simp only [Sess.toC] at this h2
